@@ -101,7 +101,7 @@ class SymKit(KitBase):
         self.expect = None
 
     # ---- inputs
-    def int(self, name, lo=None, hi=None):
+    def int(self, name, lo=None, hi=None, sample=None):
         t = z3.Int(name)
         self.inputs[name] = ("int", lo, hi)
         if lo is not None:
@@ -228,6 +228,12 @@ class SymKit(KitBase):
     def fresh_int(self, name):
         return z3.Int(self.ctx.fresh_name(name))
 
+    def instantiate(self, key):
+        """Instantiate every universally quantified fact assumed from callee contracts at `key` (sound: an
+        instance of a proved forall)."""
+        for u in list(self.ctx.universals):
+            self.ctx.assume(u(key))
+
     def branch(self, cond):
         """Case split inside a contract (explores both sides)."""
         return self.ctx.branch(cond) if isinstance(cond, z3.ExprRef) else bool(cond)
@@ -273,6 +279,69 @@ class SymKit(KitBase):
 
     def real_eq(self, a, b):
         return a == b
+
+    # ---- arrays (numpy model, see ndarray.py); cells are SV reals carrying a NaN flag
+    def array(self, name, shape, nan=True, kind="float"):
+        """Symbolic input array: element (i,j..) is the uninterpreted name_v(i,j..) with NaN flag name_n(i,j..)."""
+        from .ndarray import NDArr, zint
+        shape = tuple(wrap(d) for d in shape)
+        sorts = [z3.IntSort()] * len(shape)
+        self.inputs[name] = ("array", tuple(zint(d) for d in shape), nan, kind)
+        if kind == "bool":
+            fb = z3.Function(name + "_b", *sorts, z3.BoolSort())
+            return NDArr.fresh(lambda *idx: SV(fb(*[zint(i) for i in idx])), shape, "bool")
+        fv = z3.Function(name + "_v", *sorts, z3.RealSort())
+        fn = z3.Function(name + "_n", *sorts, z3.BoolSort())
+        if nan:
+            return NDArr.fresh(lambda *idx: SV(fv(*[zint(i) for i in idx]), fn(*[zint(i) for i in idx])), shape, "float")
+        return NDArr.fresh(lambda *idx: SV(fv(*[zint(i) for i in idx])), shape, "float")
+
+    def snapshot(self, arr):
+        return arr.copy()
+
+    def shape(self, arr):
+        return tuple(unwrap(d) for d in arr.shape)
+
+    def cell(self, arr, *idx):
+        return arr.get(*[wrap(i).t if isinstance(wrap(i), SV) else z3.IntVal(i) for i in idx])
+
+    def nan_cell(self):
+        return SV(z3.RealVal(0), True)
+
+    def real_cell(self, x):
+        from .ndarray import norm_elem
+        return norm_elem(wrap(x), "float")
+
+    def cell_is_nan(self, c):
+        from .interp import nan_of
+        n = nan_of(c)
+        return n if n is not None else False
+
+    def cell_val(self, c):
+        return c.t if isinstance(c, SV) else c
+
+    def cell_eq(self, a, b):
+        """Same cell content: both NaN, or neither and equal values."""
+        from .interp import nan_of
+        from .ndarray import norm_elem
+        a, b = norm_elem(a, "float"), norm_elem(b, "float")
+        na = nan_of(a) if nan_of(a) is not None else z3.BoolVal(False)
+        nb = nan_of(b) if nan_of(b) is not None else z3.BoolVal(False)
+        return z3.simplify(z3.And(na == nb, z3.Or(na, a.t == b.t)))
+
+    def cell_ite(self, cond, then, other):
+        from .ndarray import elem_ite, norm_elem
+        if not isinstance(cond, z3.ExprRef):
+            return norm_elem(then() if cond else other(), "float")
+        return elem_ite(cond, norm_elem(then(), "float"), norm_elem(other(), "float"))
+
+    def same_buffer(self, a, b):
+        """Do two arrays share memory?"""
+        return a.buf is b.buf
+
+    def is_array(self, v):
+        from .ndarray import NDArr
+        return isinstance(v, NDArr)
 
     def str_eq(self, a, b):
         from . import strings as STR
@@ -323,10 +392,13 @@ class ConcKit(KitBase):
         hi = (lo + 100) if hi is None else hi
         return self.rng.randint(lo, hi)
 
-    def int(self, name, lo=None, hi=None):
+    def int(self, name, lo=None, hi=None, sample=None):
+        """`sample` narrows only the random draws of the native cross-check; it is not a precondition."""
         self.inputs[name] = ("int", lo, hi)
         if name in self.values:
             v = int(self.values[name])
+        elif self.rng is not None and sample is not None:
+            v = self.rng.randint(sample[0], sample[1])
         elif self.rng is not None:
             v = self._draw_int(lo, hi)
         else:
@@ -478,6 +550,62 @@ class ConcKit(KitBase):
     def elem(self, a):
         return float(a[0, 0]) if hasattr(a, "shape") and a.shape == (1, 1) else float(a)
 
+    def array(self, name, shape, nan=True, kind="float"):
+        import numpy as np
+        shape = tuple(int(d) for d in shape)
+        self.inputs[name] = ("array", shape, nan, kind)
+        if name in self.values:
+            return np.array(self.values[name], dtype=bool if kind == "bool" else float).reshape(shape)
+        n = 1
+        for d in shape:
+            n *= d
+        if kind == "bool":
+            vals = [self.rng.random() < 0.5 if self.rng else False for _ in range(n)]
+            return np.array(vals, dtype=bool).reshape(shape)
+        pool = [float("nan"), -1.0, 0.0, 2.0, 0.5, 3.0] if nan else [-1.0, 1.0, 2.0, 0.5, 3.0]
+        vals = [self.rng.choice(pool) if self.rng else 1.0 for _ in range(n)]
+        arr = np.array(vals, dtype=float).reshape(shape)
+        self.used[name] = arr.tolist()
+        return arr
+
+    def snapshot(self, arr):
+        return arr.copy()
+
+    def shape(self, arr):
+        return tuple(arr.shape)
+
+    def cell(self, arr, *idx):
+        return float(arr[tuple(int(i) for i in idx)])
+
+    def nan_cell(self):
+        return float("nan")
+
+    def real_cell(self, x):
+        return float(x)
+
+    def cell_is_nan(self, c):
+        return c != c
+
+    def cell_val(self, c):
+        return c
+
+    def cell_eq(self, a, b):
+        a, b = float(a), float(b)
+        if a != a or b != b:
+            return a != a and b != b
+        return self.real_eq(a, b)
+
+    def cell_ite(self, cond, then, other):
+        return then() if cond else other()
+
+    def same_buffer(self, a, b):
+        import numpy as np
+        return np.shares_memory(a, b)
+
+    def is_array(self, v):
+        import numpy as np
+        return isinstance(v, np.ndarray)
+
     def real_eq(self, a, b):
         """Floating point: equality up to relative 1e-7 (rounding is outside the real-arithmetic abstraction)."""
         a, b = float(a), float(b)
@@ -485,6 +613,9 @@ class ConcKit(KitBase):
 
     def branch(self, cond):
         return bool(cond)
+
+    def instantiate(self, key):
+        pass
 
     def str_eq(self, a, b):
         return a == b
